@@ -38,7 +38,7 @@ def run_one(sid, checks, tier, root="seeded"):
     # evidence written while a patch is applied describes the patched tree: keep the real one
     ev, ev_bak = os.path.join(VERIF, "evidence"), os.path.join(VERIF, ".work", "evidence-backup")
     shutil.rmtree(ev_bak, ignore_errors=True)
-    if os.path.isdir(ev):
+    if os.path.isdir(ev) and REPO == "/repo":
         shutil.copytree(ev, ev_bak)
     sh(["git", "-C", REPO, "apply", patch])
     try:
@@ -73,7 +73,7 @@ def run_one(sid, checks, tier, root="seeded"):
         sh(["git", "-C", REPO, "apply", "-R", patch])
         sh(["git", "-C", REPO, "checkout", "--", "."])
         assert clean_repo(), "/repo is not clean after undoing the patch"
-        if os.path.isdir(ev_bak):
+        if os.path.isdir(ev_bak) and REPO == "/repo":
             shutil.rmtree(ev, ignore_errors=True)
             shutil.copytree(ev_bak, ev)
     out = {"seeded": sid, "property": meta["property"], "tier": tier, "results": results,
